@@ -22,6 +22,7 @@ pub mod c12;
 pub mod c13;
 pub mod c14;
 pub mod c16;
+pub mod c17;
 pub mod c0405;
 pub mod msg;
 pub mod c19;
@@ -38,6 +39,7 @@ pub fn lookup(id: &str) -> Option<Box<dyn Prop>> {
         "C13" => Some(Box::new(c13::C13)),
         "C14" => Some(Box::new(c14::C14)),
         "C16" => Some(Box::new(c16::C16)),
+        "C17" => Some(Box::new(c17::C17)),
         "C19" => Some(Box::new(c19::C19)),
         "C01" => Some(Box::new(c01::C01)),
         "C02" => Some(Box::new(c02::C02)),
